@@ -1,8 +1,11 @@
 """C11 - string literals denote exactly the intended string.
-Proof: coq/theories/Properties/C11.v (model Lang/Unescape.v).
+Proof: coq/theories/Properties/C11.v (models Lang/Unescape.v, Lang/StrCompare.v).
 Correspondence: zitiql.ParseZqlString, the real lexer's STRING rule and end-to-end filter
 evaluation against the extracted model, on all strings <= 4 (5) over an 8-symbol alphabet plus
-seeded random ones."""
+seeded random ones; stream Q: the literal as operand of every string comparison (= != < <= > >= contains
+icontains in, and their negations) against STORED values through Store.QueryIds (plain field, id, fk field,
+string set with anyOf/allOf, fk set) for values that spell words / syntax of the filter language, boundary
+values (empty string, blanks, quotes, control bytes, non-UTF-8 stored bytes, long) and escape-alphabet strings."""
 import json
 import os
 
@@ -16,11 +19,194 @@ def unhex(h):
     return b"" if h == "-" else bytes.fromhex(h)
 
 
+# ---- stream Q: comparisons with stored values ------------------------------------------------------------
+Q_NEGATED = ("neq", "ncontains", "nicontains", "notin")
+Q_OPTEXT = {"eq": "=", "neq": "!=", "lt": "<", "le": "<=", "gt": ">", "ge": ">=", "contains": "contains", "ncontains": "not contains",
+            "icontains": "icontains", "nicontains": "not icontains", "in": "in", "notin": "not in"}
+Q_LHS = {"sym": "name (ast symbols)", "name": "name", "id": "id", "fk": "peer.name", "any": "anyOf(tags)", "all": "allOf(tags)",
+         "anyfk": "anyOf(peers.name)"}
+
+
+def q_parse(cf):
+    path, op, ctx, esc = cf[1:5]
+    s = unhex(cf[5])
+    k, nd = int(cf[6]), int(cf[7])
+    decoys = [unhex(h) for h in cf[8:8 + nd]]
+    rows = cf[8 + nd + 1:]
+    return path, op, ctx, esc, s, k, decoys, rows
+
+
+def q_fold(b):
+    """upper-casing as far as it is unambiguous: None for text that is not valid UTF-8"""
+    try:
+        u = b.decode("utf-8")
+    except UnicodeDecodeError:
+        return None
+    return "".join(ch.upper() if len(ch.upper()) == 1 else ch for ch in u)
+
+
+def q_elem(op, x, s, vals):
+    """what the property demands of  <element x> <op> <literal of s>  (None: nothing demanded)"""
+    if op == "eq":
+        return x == s
+    if op == "neq":
+        return x != s
+    if op == "lt":
+        return x < s
+    if op == "le":
+        return x <= s
+    if op == "gt":
+        return x > s
+    if op == "ge":
+        return x >= s
+    if op == "contains":
+        return s in x
+    if op == "ncontains":
+        return s not in x
+    if op in ("icontains", "nicontains"):
+        fx, fs = q_fold(x), q_fold(s)
+        if fx is None or fs is None:
+            return None
+        return (fs in fx) == (op == "icontains")
+    if op == "in":
+        return x in vals
+    if op == "notin":
+        return x not in vals
+    raise ValueError(op)
+
+
+def q_expected(cf):
+    """one of 0 1 x per row: the literal of s denotes s, so the comparison selects the rows that s itself selects.
+    x = the property does not say (a row without value under an ordering or negated operator, allOf over no elements,
+    case folding of text that is not UTF-8)"""
+    path, op, ctx, esc, s, k, decoys, rows = q_parse(cf)
+    vals = decoys[:k] + [s] + decoys[k:]
+    out = []
+    for row in rows:
+        if path in ("any", "all", "anyfk"):
+            elems = [] if row == "~" else [unhex(h) for h in row.split(",")]
+            bits = [q_elem(op, e, s, vals) for e in elems]
+            if not elems:
+                v = None if (path == "all" or op in Q_NEGATED) else False
+            elif path == "all":
+                v = False if any(b is False for b in bits) else (None if any(b is None for b in bits) else True)
+            else:
+                v = True if any(b is True for b in bits) else (None if any(b is None for b in bits) else False)
+        elif row == "~":
+            # a row without a value equals no string and contains none
+            v = False if op in ("eq", "in", "contains", "icontains") else None
+        else:
+            v = q_elem(op, unhex(row), s, vals)
+        if v is not None and ctx == "n":
+            v = not v
+        out.append("x" if v is None else ("1" if v else "0"))
+    return "".join(out)
+
+
+def q_mismatch(want, got):
+    if len(want) != len(got) or any(ch not in "01" for ch in got):
+        return 0
+    for i, (w, g) in enumerate(zip(want, got)):
+        if w != "x" and w != g:
+            return i
+    return None
+
+
+def q_describe(cf, fi, want, idx):
+    path, op, ctx, esc, s, k, decoys, rows = q_parse(cf)
+    got = fi[1] if len(fi) > 1 else ""
+    try:
+        qtext = unhex(fi[2]).decode("utf-8", "replace") if len(fi) > 2 else "?"
+    except Exception:
+        qtext = "?"
+    if any(ch not in "01" for ch in got) or len(got) != len(want):
+        return "filter %r (literal of %r as operand of %s on %s) is not evaluated: %s" % (qtext, s, Q_OPTEXT[op], Q_LHS[path], got)
+    row = rows[idx]
+    shown = "no value" if row == "~" else ", ".join(repr(unhex(h)) for h in row.split(","))
+    return ("filter %r: the literal must denote %r, so the row holding %s must %sbe selected, but it is%s (rows selected %s, "
+            "expected %s)" % (qtext, s, shown, "" if want[idx] == "1" else "not ", " not" if want[idx] == "1" else "", got, want))
+
+
+def q_shrink_candidates(cf, idx):
+    """smaller cases of the same shape, smallest first: one row, fewer decoys, plain context, substrings of s"""
+    path, op, ctx, esc, s, k, decoys, rows = q_parse(cf)
+
+    def line(s2, k2, dec2, rows2, ctx2):
+        return " ".join(["Q", path, op, ctx2, esc, vlib_hex(s2), str(k2), str(len(dec2))] + [vlib_hex(d) for d in dec2]
+                        + [str(len(rows2))] + rows2)
+    out = []
+    bad = rows[idx]
+    ctxs = [ctx] if ctx in ("p", "n") else ["p", ctx]
+    decs = [(0, [])] + [(0, [d]) for d in decoys] + [(1, [d]) for d in decoys] + [(k, decoys)]
+    subs = []
+    if len(s) <= 40:
+        for ln in range(0, len(s)):
+            for st in range(0, len(s) - ln + 1):
+                sub = s[st:st + ln]
+                if sub not in subs and q_fold(sub) is not None:
+                    subs.append(sub)
+    for c2 in ctxs:
+        for k2, dec2 in decs:
+            if path not in ("any", "all", "anyfk"):
+                for sub in subs:      # the value itself stored, queried by its own literal
+                    if path != "id" or sub:
+                        out.append(line(sub, k2, dec2, [vlib_hex(sub)], c2))
+            out.append(line(s, k2, dec2, [bad], c2))
+    out.append(" ".join(cf))
+    seen, uniq = set(), []
+    for l in out:
+        if l not in seen:
+            seen.add(l)
+            uniq.append(l)
+    return uniq[:4000]
+
+
+def vlib_hex(b):
+    return "-" if not b else b.hex()
+
+
+def q_shrink(c, harness, cf, idx):
+    """re-run smaller variants of a violating case on the current tree; return the smallest that still violates"""
+    cands = q_shrink_candidates(cf, idx)
+    wd = os.path.join(c.work, "shrink")
+    os.makedirs(wd, exist_ok=True)
+    rin = os.path.join(wd, "in.txt")
+    with open(rin, "w") as f:
+        f.write("\n".join(cands) + "\n")
+    rc, out = vlib.run([harness, "c11", "--out", wd, "--replaycase", rin], timeout=600)
+    if rc != 0:
+        return None
+    cs = vlib.read_lines(os.path.join(wd, "cases.txt"))
+    im = vlib.read_lines(os.path.join(wd, "impl.txt"))
+    best = None
+    for case, i in zip(cs, im):
+        cf2, fi2 = case.split(), i.split()
+        want = q_expected(cf2)
+        got = fi2[1] if len(fi2) > 1 else ""
+        j = q_mismatch(want, got)
+        if j is not None and (best is None or q_size(case) < q_size(best[0])):
+            best = (case, i, want, j)
+    return best
+
+
+Q_PATH_RANK = {"name": 0, "sym": 0, "id": 1, "any": 2, "all": 3, "fk": 4, "anyfk": 5}
+
+
+def q_size(case):
+    """order in which violating cases are preferred as the replay: simplest path, fewest list literals, shortest"""
+    cf = case.split()
+    return (Q_PATH_RANK.get(cf[1], 9), int(cf[7]), len(case))
+
+
 def main(argv):
     c = vlib.Check(PID, argv)
     c.cov["trusted_base"] = [
         "Coq 8.16.1 kernel (coqc; coqchk in the thorough tier); vm_compute in Examples only; no axioms",
         "hand-written model Lang/Unescape.v of zitiql.ParseZqlString and the STRING token rule",
+        "hand-written model Lang/StrCompare.v of the evaluation of a string comparison against a stored value (listener's choice of "
+        "operator / negation from the operator token, BinaryStringExprNode / InStringArrayExprNode.EvalBool, anyOf / allOf with the "
+        "seek short-cut, rowCursorImpl.EvalString / FieldToString on a stored, empty or absent value); compared with Store.QueryIds on "
+        "every Q case; icontains is modelled for ASCII text only (the model abstains otherwise, the oracle still applies)",
         "translators/unescape (reads the NewReplacer pairs and the statement shape of ParseZqlString; Properties/C11Gen.v proves "
         "that what it read is the model function) and the documented semantics of strings.NewReplacer / TrimPrefix / TrimSuffix",
         "extraction (ExtrOcamlBasic only) + extraction/c11_driver.ml + drv_common.ml",
@@ -57,6 +243,7 @@ def main(argv):
 
     distinct = set()
     disagreements = []      # model != impl without a property verdict
+    q_viol = {}             # key -> violating Q cases
     for case, i, m in zip(cases, impl, modl):
         cf, fi, fm = case.split(), i.split(), m.split()
         kind = cf[0]
@@ -101,6 +288,26 @@ def main(argv):
                 c.violation("C11:end-to-end-" + op, "name %s <literal of %r> matched %s of the candidates, expected %s" % (op, s, got, want),
                             dict(case=case, impl=i, expected=want, value=repr(s), candidates=[repr(x) for x in cands]))
             distinct.add(case)
+        elif kind == "Q":
+            want = q_expected(cf)
+            got = fi[1] if len(fi) > 1 else ""
+            idx = q_mismatch(want, got)
+            path, op = cf[1], cf[2]
+            if idx is not None:
+                key = ("C11:end-to-end-" if path == "sym" else "C11:stored-") + op
+                q_viol.setdefault(key, []).append((case, i, want, idx))
+            elif fm[1:2] != ["?"] and fm[1:2] != fi[1:2]:
+                disagreements.append((case, i, m))
+            if "1" in want and "0" in want:
+                distinct.add(case)
+    for key, lst in sorted(q_viol.items()):
+        case, i, want, idx = min(lst, key=lambda v: q_size(v[0]))
+        small = None if c.replay else q_shrink(c, harness, case.split(), idx)
+        if small is not None:
+            case, i, want, idx = small
+        c.violation(key, "%s [%d failing cases of this kind]" % (q_describe(case.split(), i.split(), want, idx), len(lst)),
+                    dict(case=case, impl=i, expected=want, value=repr(unhex(case.split()[5])),
+                         query=(unhex(i.split()[2]).decode("utf-8", "replace") if len(i.split()) > 2 else None)))
     if c.replay:
         for case, i, m in zip(cases, impl, modl):
             vlib.log("REPLAY case=%s\n  impl =%s\n  model=%s" % (case, i, m))
@@ -109,8 +316,13 @@ def main(argv):
     c.cov["disagreements_checked"] = len(disagreements)
     c.cov["rule"] = ("all byte strings of length <= %d over {a,n,t,\\,\",LF,TAB,e-acute} (as value L, as token T, as token body B) + "
                      "seeded random strings over a 21-symbol alphabet incl. raw control bytes; end-to-end E cases evaluate "
-                     "name =/!=/in/contains <literal> over the value and its near misses. Non-trivial: contains a backslash, "
-                     "quote or control character (L), a backslash (T), any body (B), any expressible E case; distinct by case text"
+                     "name =/!=/in/contains <literal> over the value and its near misses. Stream Q: <lhs> <op> <literal(s)> for 12 "
+                     "operators x 7 left-hand sides (ast symbol, stored field, id, fk field, anyOf/allOf string set, anyOf fk set) x 10 "
+                     "query contexts, in-lists with 0-3 further literals, over rows holding s, its near misses, the empty string, a "
+                     "blank and no value; s ranges over every word of the filter language in 4 letter cases, pieces of filter syntax, "
+                     "those embedded / combined, boundary strings, escape-alphabet strings. Non-trivial: contains a backslash, "
+                     "quote or control character (L), a backslash (T), any body (B), any expressible E case, a Q case whose oracle "
+                     "selects some rows and rejects others; distinct by case text"
                      % (5 if c.thorough else 4))
     c.cov["samples"] = [dict(case=cases[k], impl=impl[k], model=modl[k]) for k in sorted(set((0, min(1, len(cases) - 1), len(cases) // 2, len(cases) - 1)))]
     try:
